@@ -596,7 +596,7 @@ def r6(m, run):
         if kind == "video":
             good = f["is_keyframe"] == ("param", "is_keyframe")
             run.check(good, "R6", "video key-flag", "is_keyframe stored from the parameter", "the stored key flag is %s, not the submitted flag" % L.show(f["is_keyframe"]))
-            arms = dict((p.split("::")[-1], v) for p, v in data[2]) if data[0] == "matchv" else {}
+            arms = _arms(data)
             want = {"H264": "annexb_to_avcc", "H265": "hevc_annexb_to_hvcc", "Av1": None, "Vp9": None}
             for codec, conv in want.items():
                 v = arms.get(codec)
@@ -615,12 +615,22 @@ def r6(m, run):
         else:
             good = f["is_keyframe"] == ("bool", False)
             run.check(good, "R6", "audio key-flag", "audio samples carry no sync flag", "audio key flag is %s" % L.show(f["is_keyframe"]))
-            arms = dict((p.split("::")[-1], v) for p, v in data[2]) if data[0] == "matchv" else {}
+            arms = _arms(data)
             a = arms.get("Aac")
             good = a is not None and _is_adts_payload(a)
             run.check(good, "R6", "audio payload Aac", L.show(a)[:120] if a else "?", "AAC payload is not the ADTS validator's slice of the submitted frame: %s" % (L.show(a) if a else "missing"))
             o = arms.get("Opus")
             run.check(o == ("param", "data"), "R6", "audio payload Opus", "verbatim", "Opus payload is %s" % (L.show(o) if o else "missing"))
+
+
+def _arms(data):
+    """variant name -> value of a `match` over the codec; or-patterns `A | B` give each alternative the arm's value"""
+    out = {}
+    if data[0] == "matchv":
+        for p, v in data[2]:
+            for alt in str(p).split("|"):
+                out.setdefault(alt.strip().split("::")[-1], v)
+    return out
 
 
 def _is_adts_payload(v):
